@@ -168,7 +168,10 @@ let explore cap u maxstates depth prefix =
   let q = Queue.create () in
   Hashtbl.add seen (ident ws) ();
   Queue.add (ws, path0, sid0) q;
-  let nh = ref 0 and nstates = ref 1 and truncated = ref false and maxh = ref 0 in
+  let nh = ref 0 and nstates = ref 1 and truncated = ref false and maxh = ref 0 and structural = ref 0 in
+  let nodes (w : world) = match current w with
+    | None -> 0
+    | Some s -> let rec go t = match t with PLeaf _ -> 1 | PBranch (_, _, _, cs) -> List.fold_left (fun a c -> a + go c) 1 cs in go s.troot in
   let probes = Printf.sprintf "len\nitems - -\nkeys %d %d\nrange %d -\nvalues - %d\npopitem\n" (u / 4) (u - 2) (u / 2) (u / 3) in
   let tag = Printf.sprintf "xp%d.%d.%s.%d" cap u (String.concat "" (String.split_on_char ':' prefix)) depth in
   while not (Queue.is_empty q) do
@@ -183,6 +186,7 @@ let explore cap u maxstates depth prefix =
         pr "H %s.%d py cap=%d keys=int\nDUMP 0\n%sDUMP 1\n%s\nget %d\nin %d\n%s" tag !nh cap path line k k probes;
         incr nh;
         if not (fatal out) then begin
+          if nodes w' <> nodes w then incr structural;
           let id = ident w' in
           if not (Hashtbl.mem seen id) then
             if depth > 0 && plen + 1 - plen0 >= depth then truncated := true
@@ -197,8 +201,8 @@ let explore cap u maxstates depth prefix =
     done
   done;
   flush_buf ();
-  Printf.eprintf "EXPLORE cap=%d keys=%d states=%d transitions=%d longest_path=%d closed=%b\n"
-    cap u !nstates !nh !maxh (not !truncated)
+  Printf.eprintf "EXPLORE cap=%d keys=%d states=%d transitions=%d longest_path=%d closed=%b structural=%d\n"
+    cap u !nstates !nh !maxh (not !truncated) !structural
 
 (* ---------- main loop ---------- *)
 let () =
